@@ -192,6 +192,7 @@ def check_maze(spec, res, adj=None, roundtrip=True):
         return
     for reader, arg in (("from_pixels", full_img), ("from_ascii", full_txt)):
         res.ev()
+        before = np.array(arg, copy=True) if reader == "from_pixels" else None
         try:
             m2 = getattr(cls, reader)(arg)
         except Exception as e:
@@ -200,6 +201,18 @@ def check_maze(spec, res, adj=None, roundtrip=True):
         bad = readback_diff(m2, cls, kind, cl, start, end, sol)
         if bad:
             res.fail(f"C10|{reader}|{kind}|wrong|{bad}", f"{cls.__name__}.{reader} of the picture of {desc} returned a different maze ({bad}): {describe(m2)}", rd)
+        if before is not None:
+            # the picture is data: reading it must leave it as it was, and reading the SAME array again must give the same maze
+            if not np.array_equal(np.asarray(arg), before):
+                res.fail(f"C10|{reader}|{kind}|input_image_modified", f"{cls.__name__}.{reader} changed the image array it was given, for {desc}", rd)
+            else:
+                try:
+                    m3 = getattr(cls, reader)(arg)
+                    bad3 = readback_diff(m3, cls, kind, cl, start, end, sol)
+                except Exception as e:  # noqa: BLE001
+                    bad3 = f"raises-{type(e).__name__}"
+                if bad3 and not bad:
+                    res.fail(f"C10|{reader}|{kind}|second_read_of_same_array|{bad3}", f"reading the same image array a second time with {cls.__name__}.{reader} gives {bad3}, for {desc}", rd)
 
 
 def describe(m):
